@@ -90,7 +90,7 @@ func e2eChild() {
 				stable = 0
 			}
 			last = n
-			if stable >= 30 {
+			if stable >= 60 {
 				rec.Note("verdict", "deadlock")
 				rec.Note("events", n)
 				os.Exit(0)
